@@ -374,7 +374,7 @@ class Run:
             cmd = [exe, "-test.run", h.get("run", "TestVerif"), "-test.timeout", "0", "-test.count", "1"] + self.extra_test_args
         else:
             cmd = [exe]
-        timeout = budget / 1000.0 * h.get("timeout_factor", 6) + 120
+        timeout = budget / 1000.0 * h.get("timeout_factor", 6) + (300 if self.tier == "quick" and not deep else 600)  # generous: slowness on a loaded machine must not become an alarm
         rc, out = sh(cmd, cwd=os.path.join(VERIF, h.get("module", "harness")), env=env, timeout=timeout)
         self.log("run_%s.log" % h["name"], out)
         if replay:
